@@ -9,7 +9,7 @@ use libfuzzer_sys::fuzz_target;
 const TOK: [&str; 30] = [
     "a", "b", "c", ".", "-", "+", "(", ")", "^", "$", "ż", "\\*", "\\?", "\\{", "\\|", "?", "*", "**", "/", "[ab]", "[!a]", "[a-c]", "{", ",", "}", "@(", "?(", "+(", "*(", "|",
 ];
-const PCH: [&str; 16] = ["a", "b", "c", ".", "-", "+", "(", "^", "$", "ż", "*", "?", "{", "|", "/", "A"];
+const PCH: [&str; 18] = ["a", "b", "c", ".", "-", "+", "(", "^", "$", "ż", "*", "?", "{", "|", "/", "A", "\n", "Ż"];
 
 fuzz_target!(|data: &[u8]| {
     if data.len() < 3 {
